@@ -3,8 +3,8 @@
 //!   patches = `-` when the plan is None (identical layouts), else sorted `src:dst:size` joined by `,` (empty plan = `.`)
 //!   applied = result of apply_state_storage_patch_plan on tagged old storage (word i = i+1), `,`-joined, `.` if empty,
 //!             `=` when plan is None (plain copy), `PANIC` if the crate panicked.
-use crate::rng::Rng;
-use crate::sk::{self, Sk};
+use mmh::rng::Rng;
+use mmh::sk::{self, Sk};
 use std::io::Write;
 
 pub fn leaves() -> Vec<Sk> {
@@ -179,7 +179,9 @@ pub fn edit(r: &mut Rng, s: &Sk, depth: usize) -> Sk {
     }
 }
 
-pub fn main(args: &[String]) {
+fn main() {
+    let args: Vec<String> = std::env::args().skip(1).collect();
+    let args = &args[..];
     let stdout = std::io::stdout();
     let mut out = std::io::BufWriter::new(stdout.lock());
     std::panic::set_hook(Box::new(|_| {}));
